@@ -1,4 +1,5 @@
 import RQ.Lemmas.ParseTotal
+import RQ.Lemmas.Place
 /-!
 # C11 — the patch parser is total: any bytes give a patch or an error, never a crash
 
@@ -11,6 +12,10 @@ counts exceed its sides (slice ranges of `HunkView`) — `C11_wf`; (iii) allocat
 `reserve` is capped by the remaining input in the code, and a successfully parsed hunk has consumed at
 least one byte per stored line — `C11_alloc`.  (The overflow sites fixed in the code — `reserve`,
 `as isize - 1`, `target + offset` — are covered by the correspondence run on boundary numbers.)
+(iv) "terminates" must also mean "in proportion to the input": the only loop of the tool whose bounds
+come from numbers *written in the patch* is the offset search of `try_apply_hunk`; `C11_scan_bounded`
+shows that it tries at most `len + 1` positions whatever those numbers are (before two repairs it tried
+up to 2^63 positions behind the end, respectively before the start, of the file).
 -/
 namespace RQ.Parse
 open RQ
@@ -42,7 +47,14 @@ theorem C11_alloc (inp rest : Bytes) (hk : PHunk) (h : parseHunk inp = .ok (rest
   obtain ⟨h1, h2, h3, _⟩ := parseHunk_ok inp rest hk h
   exact ⟨by omega, h2, h3⟩
 
+/-- the offset search of `try_apply_hunk` looks at no more than one position per line of the file, for
+every stated line number and every offset inherited from the previous hunk (both come from the patch) -/
+theorem C11_scan_bounded (t : Int) (len n : Nat) : (RQ.cands t len n).length ≤ len + 1 :=
+  RQ.cands_length_le t len n
+
 /-! ### non-vacuity -/
+example : RQ.cands (-(2^63) + 4) 1 1 = [0] := by decide
+example : RQ.cands (2^63 - 1) 3 1 = [2, 1, 0] := by decide
 example : (match parsePatch [45,45,45,32,97,10, 43,43,43,32,98,10, 64,64,32,45,49,32,43,49,32,64,64,10, 45,120,10, 43,121,10] 0 true with
     | .ok p => p.fps.map (fun f => (f.old, f.new, f.hunks.map (fun h => (h.rem, h.add))))
                 == [(some [97], some [98], [([[120, 10]], [[121, 10]])])]
@@ -52,5 +64,6 @@ example : (match parsePatch [45,45,45,32,97,10, 43,43,43,32,98,10, 64,64,32,45,4
 #print axioms C11_noMatch
 #print axioms C11_wf
 #print axioms C11_alloc
+#print axioms C11_scan_bounded
 
 end RQ.Parse
